@@ -484,6 +484,13 @@ func (db *SingleBucketBackend) deleteObjectLocked(bucketName, objectName string)
 		return nil
 	}
 
+	// A directory is not an object (it only holds the objects below it), so no
+	// such key exists. Removing it would fail on a real filesystem and, on
+	// afero's MemMapFs, orphan everything below it.
+	if stat, err := db.fs.Stat(filepath.FromSlash(objectName)); err == nil && stat.IsDir() {
+		return nil
+	}
+
 	// S3 does not report an error when attemping to delete a key that does not exist, so
 	// we need to skip IsNotExist errors.
 	if err := db.fs.Remove(filepath.FromSlash(objectName)); err != nil && !noSuchFile(err) {
